@@ -158,6 +158,10 @@ func genC05(mode string) func(rng *Rng, sc *Scenario) {
 			sc.Clients = append(sc.Clients, cl)
 		}
 		sc.OrderSeed = rng.U64() | 1
+		if mode == "concurrent" && rng.Chance(1, 5) && len(sc.Clients[0].Reqs[0].Over) == 0 {
+			sc.Options.OnPanic = "p0" // a recovered panic earlier in the history
+			plantPanic(rng, sc, &sc.Clients[0].Reqs[0])
+		}
 		sc.Pool = PoolCfg{Policy: rng.Pick([]string{"lifo", "dirty", "random", "fifo"}), Seed: rng.U64()}
 		sc.Sites = GenSites(rng)
 		if nClients > 1 {
@@ -235,12 +239,20 @@ func checkC05(sc *Scenario) *CheckOut {
 		out.Viol = append(out.Viol, Violation{"C05", "no-progress", fmt.Sprintf("a request did not finish within the step bound of the run (%d scheduler steps; longest chain in the scenario: %d handlers)", len(res.Steps), longest), sig})
 		return out
 	}
+	if v := poolViolation("C05", res); v != nil {
+		out.Viol = append(out.Viol, *v)
+		return out
+	}
 	all := res.All()
 	out.Requests = len(all)
 	tw := newTwinCache(sc, BuildOpt{})
 	for _, rec := range all {
 		if len(out.Viol) > 0 {
 			break
+		}
+		if len(rec.PanicAt) > 0 {
+			out.Faults["handler-panic"]++
+			continue // a planted panic: C09's business
 		}
 		rq := &sc.Clients[rec.Task].Reqs[rec.Idx]
 		chainLen := len(expectedChain(res.W, nocache, rec.Method, rec.Path))
